@@ -38,7 +38,7 @@ ASSUMPTIONS = [
     "USE_JIT off (library runs as plain Python)",
 ]
 BUDGET = {
-    "quick": dict(cases=1000, shards=4, timeout=1800),
+    "quick": dict(cases=1500, shards=4, timeout=1800),
     "thorough": dict(cases=3000, shards=16, timeout=5400),
 }
 SMALL = ["small_ragged", "small_repeats", "small_alphabet1", "small_tie_costs", "small_hyp_longer",
